@@ -27,6 +27,7 @@ func Run(m *mon.M) {
 	m.Stream("point-edge", m.N(250000, 8000000), pointEdge)
 	m.Stream("edge-pair", m.N(60000, 2000000), edgePair)
 	m.Stream("interp", m.N(100000, 3000000), interp)
+	m.Stream("online", m.N(100000, 3000000), onLine)
 	m.Stream("polyline", m.N(15000, 400000), polyline)
 }
 
@@ -312,6 +313,22 @@ func edgePair(c *mon.Case) {
 	if e := math.Abs(float64(d) - trueMin); e > bound*1.0000001 {
 		c.Violation("EdgePairMinDistance/error-bound/"+mon.Severity(e-bound), fmt.Sprintf("edge pair minimum distance %x, exact %x (crossing=%v)", float64(d), trueMin, cross), det())
 	}
+	// threshold form: with a finite limit the distance is updated exactly when the computed distance is below
+	// the limit, and then to the same value
+	{
+		lims := []s1.ChordAngle{d, s1.ChordAngle(math.Nextafter(float64(d), 5)), s1.ChordAngle(float64(d) * r.Float64()), s1.ChordAngle(float64(d) + gen.LogUniform(r, 1e-30, 4)), s1.ChordAngle(gen.LogUniform(r, 1e-30, 4)), 0, s1.StraightChordAngle}
+		for _, t := range lims {
+			if t < 0 || t > 4 {
+				continue
+			}
+			c.Count("pair.threshold_forms", 1)
+			dt, okt := s2.VerifUpdateEdgePairMinDistance(a0, a1, b0, b1, t)
+			if okt != (d < t) || (okt && dt != d) || (!okt && dt != t) {
+				c.Violation("EdgePairMinDistance/threshold-disagrees-with-computed-distance/wrong-answer", fmt.Sprintf("with limit %x the edge pair distance update returns (%x,%v); without a limit the distance is %x (crossing=%v)", float64(t), float64(dt), okt, float64(d), cross), det())
+				break
+			}
+		}
+	}
 	// the closest points realise it
 	if a0 != a1 && b0 != b1 {
 		pa, pb := s2.EdgePairClosestPoints(a0, a1, b0, b1)
@@ -348,8 +365,94 @@ func edgePair(c *mon.Case) {
 		if e := math.Abs(float64(dm) - trueMax); e > bm*1.0000001 {
 			c.Violation("EdgePairMaxDistance/error-bound/"+mon.Severity(e-bm), fmt.Sprintf("edge pair maximum distance %x, exact %x (antipodal crossing=%v)", float64(dm), trueMax, crossAnti), det())
 		}
+		for _, t := range []s1.ChordAngle{dm, s1.ChordAngle(math.Nextafter(float64(dm), -1)), s1.ChordAngle(float64(dm) * r.Float64()), s1.ChordAngle(gen.LogUniform(r, 1e-30, 4)), 0, s1.StraightChordAngle} {
+			if t < 0 || t > 4 {
+				continue
+			}
+			dt, okt := s2.VerifUpdateEdgePairMaxDistance(a0, a1, b0, b1, t)
+			if okt != (dm > t) || (okt && dt != dm) || (!okt && dt != t) {
+				c.Violation("EdgePairMaxDistance/threshold-disagrees-with-computed-distance/wrong-answer", fmt.Sprintf("with limit %x the edge pair maximum distance update returns (%x,%v); without a limit the maximum is %x", float64(t), float64(dt), okt, float64(dm)), det())
+				break
+			}
+		}
 	} else {
 		c.Violation("EdgePairMaxDistance/no-update/wrong-answer", "edge pair maximum distance did not update", det())
+	}
+}
+
+// onLine: PointOnLine / PointOnRay / PointToLeft / PointToRight. The result has unit length, lies at the
+// requested distance from A, on the great circle of A and B (resp. the perpendicular one through A), on the
+// side the function names; InterpolateAtDistance along the same line returns the same point. The edge AB may
+// be as short as 1e-15 rad (its direction is still exactly defined by the coordinates), nearly 180 degrees,
+// or degenerate (then only length and distance are asserted).
+func onLine(c *mon.Case) {
+	r := c.R
+	a, b := genEdge(r)
+	if r.Intn(4) == 0 {
+		b = gen.Near(r, a, gen.LogUniform(r, 1e-15, 1e-8)) // very short edges with large distances are the hard case
+	}
+	if ref.Antipodal(gen.V(a), gen.V(b)) {
+		return
+	}
+	rr := []float64{0, gen.LogUniform(r, 1e-15, 1), r.Float64() * math.Pi, math.Pi * (1 - gen.LogUniform(r, 1e-15, 1e-3)), math.Pi / 2}[r.Intn(5)]
+	ang := s1.Angle(rr)
+	det := func() any {
+		return map[string]any{"a": gen.Hex(a), "b": gen.Hex(b), "r": fmt.Sprintf("%x", rr)}
+	}
+	if c.I < 3 {
+		c.Sample(det())
+	}
+	const tol = 2.5e-15 // (the original documents (4+2/sqrt 3)*2^-52 + 2^-53 = 1.26e-15 for PointOnLine)
+	ha, hb := hp(a), hp(b)
+	n := ha.Cross(hb) // exact normal of the line AB (zero iff A == B)
+	type res struct {
+		name  string
+		p     s2.Point
+		plane ref.H // the point must lie in the plane with this normal (nil: not asserted)
+		ahead ref.H // (a x p) must point along this vector (nil: not asserted)
+	}
+	var out []res
+	pl := s2.PointOnLine(a, b, ang)
+	out = append(out, res{"PointOnLine", pl, n, n})
+	if a != b {
+		// the perpendicular line through A: its normal is the tangent of AB at A, t = (a x b) x a; PointToLeft
+		// moves towards a x b, PointToRight away from it
+		t := n.Cross(ha)
+		out = append(out, res{"PointToLeft", s2.PointToLeft(a, b, ang), t, t.Neg()}, res{"PointToRight", s2.PointToRight(a, b, ang), t, t})
+		out = append(out, res{"InterpolateAtDistance", s2.InterpolateAtDistance(ang, a, b), n, n})
+	}
+	c.Count("online.calls", int64(len(out)))
+	if a != b && a.Distance(b) < 1e-8 && rr > 0.01 {
+		c.Count("online.short_edge_long_distance", 1)
+		c.Distinct(gen.Bits(a, b)...)
+	}
+	for _, o := range out {
+		hpP := hp(o.p)
+		if math.Abs(o.p.Norm()-1) > 4e-16 {
+			c.Violation(o.name+"/not-unit-length/wrong-answer", fmt.Sprintf("%s returned a vector of length %.17g", o.name, o.p.Norm()), det())
+			continue
+		}
+		if e := math.Abs(ref.Angle(ha, hpP) - rr); e > tol {
+			c.Violation(o.name+"/wrong-distance-from-A/"+mon.Severity(e), fmt.Sprintf("%s(r=%.17g) is %.17g rad from A (off by %.3g)", o.name, rr, ref.Angle(ha, hpP), e), det())
+			continue
+		}
+		if a == b || o.plane.IsZero() {
+			continue
+		}
+		// distance from the plane of the line
+		nu := o.plane.Unit()
+		off := math.Abs(fl(nu.Dot(hpP)))
+		c.Max("online.max_off_line_rad", off)
+		if off > tol {
+			c.Violation(o.name+"/off-the-line/"+mon.Severity(off), fmt.Sprintf("%s(r=%.17g) is %.3g rad off the great circle it should lie on", o.name, rr, off), det())
+			continue
+		}
+		// on the side of B (resp. left / right): (a x p) has the direction of the given vector, for 0 < r < pi
+		if rr > 1e-14 && rr < math.Pi-1e-14 {
+			if ha.Cross(hpP).Dot(o.ahead).Sign() <= 0 {
+				c.Violation(o.name+"/wrong-direction/wrong-answer", fmt.Sprintf("%s(r=%.17g) lies on the opposite side of A", o.name, rr), det())
+			}
+		}
 	}
 }
 
